@@ -413,6 +413,16 @@ func (e *eventHandlerStore) off(eventName string, handler ...reflect.Value) {
 	e.mu.Lock()
 	defer e.mu.Unlock()
 
+	// A nil handler (the zero reflect.Value) names no handler:
+	// OffEvent(name, nil) is OffEvent(name).
+	named := make([]reflect.Value, 0, len(handler))
+	for _, h := range handler {
+		if h.IsValid() {
+			named = append(named, h)
+		}
+	}
+	handler = named
+
 	if len(handler) == 0 {
 		delete(e.events, eventName)
 		delete(e.eventsOnce, eventName)
